@@ -400,6 +400,8 @@ def make_units(name, iset):
     opts = {'contracts': {}, 'max_paths': 20000, 'merge_calls': step.merge_set()}
     qn = '%s.%s.execute' % (K.__module__, name)
     props = ['C03', 'C12'] if kind == 'ldmeret' else ['C03']        # LDM (exception return) is one of the returns of C12
+    if kind in ('push', 'pop'):
+        props = props + ['C02']         # the single-register encodings of PUSH / POP (A2, T3) are STR / LDR (immediate) encodings
     also = {'C14': ['inv.abort']}           # C14: a denied access at any position of a multi-word transfer - no write-back, no later transfer
     return [Unit('C03/exec:%s[%s]/head' % (name, iset), props, head, nreplay, dict(opts), meta={'function': qn, 'inductive': True, 'also': also}),
             Unit('C03/exec:%s[%s]/step' % (name, iset), props, stepu, nreplay, dict(opts), meta={'function': qn, 'inductive': True, 'also': also}),
